@@ -483,7 +483,7 @@ theorem hasDup_of_dupDeep (p : JVal) (h : p.dupDeep = false) : hasDup p = false 
 
 /-- everything `generateSignatureEnvelope` checks -/
 def envChecks (i : Input) : Bool :=
-  i.echoOk && !i.garbage && i.envFmt == i.format && verifyOk i && i.ctypeOk &&
+  i.echoOk && !i.garbage && i.envFmt == i.format && wrapParses i && verifyOk i && i.ctypeOk &&
   singleDocument i && !i.payload.dupDeep &&
   sees i.req (goDecodePayload i.payload) && topKeysExact i.payload && descKeysKnown i.payload
 
@@ -498,19 +498,21 @@ theorem envelopePath_eq (i : Input) :
   · simp [h0, h1, h2]
   by_cases h3 : i.envFmt = i.format
   case neg => simp [h0, h1, h2, h3]
+  by_cases hw : wrapParses i = true
+  case neg => simp [h0, h1, h2, h3, hw]
   by_cases h4 : verifyOk i = true
-  case neg => simp [h0, h1, h2, h3, h4]
+  case neg => simp [h0, h1, h2, h3, hw, h4]
   by_cases h5 : i.ctypeOk = true
-  case neg => simp [h0, h1, h2, h3, h4, h5]
+  case neg => simp [h0, h1, h2, h3, hw, h4, h5]
   by_cases hsd : singleDocument i = true
-  case neg => simp [h0, h1, h2, h3, h4, h5, hsd]
+  case neg => simp [h0, h1, h2, h3, hw, h4, h5, hsd]
   cases hg : goDecodePayload i.payload with
-  | none => simp [h0, h1, h2, h3, h4, h5, hsd, sees]
+  | none => simp [h0, h1, h2, h3, hw, h4, h5, hsd, sees]
   | some d =>
     by_cases hdd : i.payload.dupDeep = true
-    · simp [h0, h1, h2, h3, h4, h5, hsd, hdd]
+    · simp [h0, h1, h2, h3, hw, h4, h5, hsd, hdd]
     by_cases h6 : descValid i.req d = true
-    case neg => simp [h0, h1, h2, h3, h4, h5, hsd, hdd, h6, sees]
+    case neg => simp [h0, h1, h2, h3, hw, h4, h5, hsd, hdd, h6, sees]
     have hs := scan_checked_iff i.payload
     have hp := scan_checked_ne_panic i.payload
     cases hsc : scanUnknown true i.payload with
@@ -518,7 +520,7 @@ theorem envelopePath_eq (i : Input) :
     | unknown ks =>
       rw [hsc] at hs
       simp only [scanClean] at hs
-      simp [h0, h1, h2, h3, h4, h5, hsd, hdd, h6, sees, hs, Bool.and_assoc]
+      simp [h0, h1, h2, h3, hw, h4, h5, hsd, hdd, h6, sees, hs, Bool.and_assoc]
 
 theorem spec_facts (k : KS) :
     ∃ e h a, encodeKeySpec k.spec = some e ∧ hashFromKeySpec k.spec = some h ∧
@@ -639,8 +641,8 @@ theorem env_sig (i : Input) (hr : hasRaw i.cap = false) (he : hasEnvelope i.cap 
     refine ⟨?_, hc.2⟩
     have hc2 := hc.2
     simp only [envChecks, Bool.and_eq_true] at hc2
-    obtain ⟨⟨⟨⟨⟨⟨⟨⟨⟨a1, a2⟩, a3⟩, a4⟩, a5⟩, asd⟩, _⟩, a6⟩, a7⟩, a8⟩ := hc2
-    simp [required, pathOf, hr, he, a1, a3, a4, a5, asd, a6, a7, a8]
+    obtain ⟨⟨⟨⟨⟨⟨⟨⟨⟨⟨a1, a2⟩, a3⟩, aw⟩, a4⟩, a5⟩, asd⟩, _⟩, a6⟩, a7⟩, a8⟩ := hc2
+    simp [required, pathOf, hr, he, a1, a3, aw, a4, a5, asd, a6, a7, a8]
     simpa using a2
 
 /-- a signature is returned only after every check the property demands -/
@@ -728,10 +730,14 @@ theorem duplicates_refused (i : Input) (hp : pathOf i = .envelope) (h : i.payloa
 what a Go `ocispec.Descriptor` can hold, and what the generator emits; `dupKeys` is the redundant
 flag the harness computes). -/
 theorem model_holds (i : Input) (hwf : reqWellFormed i.req = true)
-    (hdk : i.dupKeys = i.payload.dupDeep) : Holds i (run i) = true := by
+    (hdk : i.dupKeys = i.payload.dupDeep) : Holds i (runAll i) = true := by
+  have ho : (runAll i).outcome = (run i).outcome := rfl
+  have hpo : (runAll i).payloadOk = (run i).payloadOk := rfl
+  have hlo : (runAll i).leafOk = (run i).leafOk := rfl
+  have he : (runAll i).earlier = i.history.map (fun s => (run (s.apply i)).outcome) := rfl
   unfold Holds clauses
-  simp only [Clauses.holds_cons, Clauses.holds_nil, Bool.and_true, Bool.and_eq_true]
-  refine ⟨by simp [hwf, hdk], ?_, ?_, ?_, ?_, ?_⟩
+  simp only [Clauses.holds_cons, Clauses.holds_nil, Bool.and_true, Bool.and_eq_true, ho, hpo, hlo, he]
+  refine ⟨by simp [hwf, hdk], ?_, ?_, ?_, ?_, ?_, by simp, ?_, ?_⟩
   · have := never_panics i
     simpa using this
   · by_cases h : (run i).outcome = .sig
@@ -754,6 +760,42 @@ theorem model_holds (i : Input) (hwf : reqWellFormed i.req = true)
     · have := returns_only_checked i h
       simp [this.1, this.2]
     · simp [h]
+  · rw [List.all_eq_true]
+    intro x hx
+    obtain ⟨s, _, rfl⟩ := List.mem_map.1 hx
+    have := never_panics (s.apply i)
+    simpa using this
+  · rw [List.all_eq_true]
+    intro p hp
+    have hmem : ∀ (l : List Step) (p : Outcome × Step),
+        p ∈ (l.map (fun s => (run (s.apply i)).outcome)).zip l → p.1 = (run (p.2.apply i)).outcome := by
+      intro l
+      induction l with
+      | nil => intro p hp; simp at hp
+      | cons a l ih =>
+        intro p hp
+        simp only [List.map_cons, List.zip_cons_cons, List.mem_cons] at hp
+        rcases hp with rfl | hp
+        · rfl
+        · exact ih p hp
+    have h1 := hmem _ p hp
+    by_cases h : p.1 = .sig
+    · rw [h1] at h
+      simp [(run_sig_required (p.2.apply i) h).1]
+    · simp [h]
+
+/-- **each call on its own**: whatever was asked and answered before on the same signer value, a call is
+answered as if it were the first one -/
+theorem history_ignored (i : Input) (h : List Step) : run { i with history := h } = run i := rfl
+
+/-- the framing of the returned bytes: an envelope that the registered parser of the requested format does
+not read as it stands (an untagged or doubly tagged COSE_Sign1, bytes after the message, indefinite-length
+encoding, blanks around CBOR) is never handed back -/
+theorem unparsable_framing_refused (i : Input) (hp : pathOf i = .envelope) (h : wrapParses i = false) :
+    (run i).outcome ≠ .sig := by
+  intro hs
+  have hc := (run_sig_required i hs).2 hp
+  simp [envChecks, h] at hc
 
 /-! ### readable corollaries -/
 
@@ -772,7 +814,8 @@ carries the Notary payload type, the struct-decoded target is the requested desc
 every original annotation, the only top-level key is the exactly spelled `targetArtifact` and
 the target object has only known descriptor keys. -/
 theorem envelope_path_sound (i : Input) (h : (envelopePath i).outcome = .sig) :
-    i.echoOk = true ∧ i.garbage = false ∧ i.envFmt = i.format ∧ verifyOk i = true ∧ i.ctypeOk = true ∧
+    i.echoOk = true ∧ i.garbage = false ∧ i.envFmt = i.format ∧ wrapParses i = true ∧ verifyOk i = true ∧
+    i.ctypeOk = true ∧
     singleDocument i = true ∧ i.payload.dupDeep = false ∧
     (∃ d, goDecodePayload i.payload = some d ∧ d.mediaType = i.req.mediaType ∧ d.digest = i.req.digest ∧
         d.size = i.req.size ∧ ∀ kv ∈ i.req.annotations, d.annotations.lookup kv.1 = some kv.2) ∧
@@ -782,8 +825,8 @@ theorem envelope_path_sound (i : Input) (h : (envelopePath i).outcome = .sig) :
   case isFalse => exact absurd h sig_ne_err
   case isTrue hc =>
     simp only [envChecks, Bool.and_eq_true, Bool.not_eq_true', beq_iff_eq] at hc
-    obtain ⟨_, ⟨⟨⟨⟨⟨⟨⟨⟨h1, h2⟩, h3⟩, h4⟩, h5⟩, hsd⟩, hdd⟩, h6⟩, h7⟩, h8⟩ := hc
-    refine ⟨h1, h2, h3, h4, h5, hsd, hdd, ?_, h7, h8⟩
+    obtain ⟨_, ⟨⟨⟨⟨⟨⟨⟨⟨⟨h1, h2⟩, h3⟩, hw⟩, h4⟩, h5⟩, hsd⟩, hdd⟩, h6⟩, h7⟩, h8⟩ := hc
+    refine ⟨h1, h2, h3, hw, h4, h5, hsd, hdd, ?_, h7, h8⟩
     cases hg : goDecodePayload i.payload with
     | none => simp [hg, sees] at h6
     | some d =>
@@ -795,13 +838,13 @@ Go decoder all read the same, requested, descriptor -/
 theorem envelope_path_sound_readers (i : Input) (h : (envelopePath i).outcome = .sig) :
     ∃ d, goDecodePayload i.payload = some d ∧ exactView i.payload = some d ∧
       firstView i.payload = some d ∧ descValid i.req d = true := by
-  obtain ⟨_, _, _, _, _, _, hdd, ⟨d, hg, hv⟩, ht, hk⟩ := envelope_path_sound i h
+  obtain ⟨_, _, _, _, _, _, _, hdd, ⟨d, hg, hv⟩, ht, hk⟩ := envelope_path_sound i h
   obtain ⟨h1, h2⟩ := views_agree i.payload d ht hk (hasDup_of_dupDeep _ hdd) hg
   exact ⟨d, hg, h1, h2, (descValid_iff _ _).2 hv⟩
 
 /-- **envelope path, completeness**: the converse - these checks are all there is -/
 theorem envelope_path_complete (i : Input) (hp : i.pluginErr ≠ .generate)
-    (h1 : i.echoOk = true) (h2 : i.garbage = false) (h3 : i.envFmt = i.format)
+    (h1 : i.echoOk = true) (h2 : i.garbage = false) (h3 : i.envFmt = i.format) (hw : wrapParses i = true)
     (h4 : verifyOk i = true) (h5 : i.ctypeOk = true) (hsd : singleDocument i = true)
     (hdd : i.payload.dupDeep = false)
     (h6 : ∃ d, goDecodePayload i.payload = some d ∧ descValid i.req d = true)
@@ -809,7 +852,7 @@ theorem envelope_path_complete (i : Input) (hp : i.pluginErr ≠ .generate)
     envelopePath i = sigObs := by
   obtain ⟨d, hg, hv⟩ := h6
   rw [envelopePath_eq]
-  simp [envChecks, hp, h1, h2, h3, h4, h5, hsd, hdd, hg, sees, hv, h7, h8]
+  simp [envChecks, hp, h1, h2, h3, hw, h4, h5, hsd, hdd, hg, sees, hv, h7, h8]
 
 /-- **raw path, soundness**: through a raw-signature plugin a signature comes back only if
 DescribeKey and GenerateSignature answered for the requested key id, the described key spec is
@@ -847,7 +890,7 @@ theorem other_format_refused (i : Input) (hp : pathOf i = .envelope)
   intro hs
   have hc := (run_sig_required i hs).2 hp
   simp only [envChecks, Bool.and_eq_true, Input.echoOk, beq_iff_eq] at hc
-  obtain ⟨⟨⟨⟨⟨⟨⟨⟨⟨h1, _⟩, h3⟩, _⟩, _⟩, _⟩, _⟩, _⟩, _⟩, _⟩ := hc
+  obtain ⟨⟨⟨⟨⟨⟨⟨⟨⟨⟨h1, _⟩, h3⟩, _⟩, _⟩, _⟩, _⟩, _⟩, _⟩, _⟩, _⟩ := hc
   rcases h with h | h
   · exact h h1
   · exact h h3
@@ -885,7 +928,7 @@ def findingWitness : Input :=
                      ("targetArtifact", .obj [("size", .num 7)])],
     lead := "", trail := "", spaced := false,
     gsKeyIdOk := true, gsAlg := "ECDSA-SHA-256", sigMode := .good, chain := .ok, gen := .fixed, blob := "",
-    honest := false, dupKeys := true,
+    honest := false, wrap := .asIs, history := [], dupKeys := true,
     emptyAnnMap := false }
 
 theorem former_finding_refused :
@@ -1454,7 +1497,8 @@ structure Consistent (w : signer.World) (i : Input) (desc : ocispec.Descriptor)
   request : reqOf desc = i.req
   pluginErr : err.isSome = (i.pluginErr == .generate)
   echo : (resp.SignatureEnvelopeType != req.SignatureEnvelopeType) = !i.echoOk
-  parse : (w.ParseEnvelope opts.SignatureMediaType resp.SignatureEnvelope).2.isSome = (i.garbage || i.envFmt != i.format)
+  parse : (w.ParseEnvelope opts.SignatureMediaType resp.SignatureEnvelope).2.isSome =
+            (i.garbage || i.envFmt != i.format || !wrapParses i)
   verify : (w.ParseEnvelope opts.SignatureMediaType resp.SignatureEnvelope).1.Verify.2.isSome = !verifyOk i
   ctype : ((w.ParseEnvelope opts.SignatureMediaType resp.SignatureEnvelope).1.Verify.1.Payload.ContentType
             == Facts.c18MediaTypePayloadV1) = i.ctypeOk
@@ -1516,31 +1560,33 @@ theorem source_generateSignatureEnvelope_refines_model (w : signer.World) (i : I
   · simp [c0, pure, errObs]
   by_cases c1 : i.echoOk = true
   case neg => simp [c0, c1, pure, envChecks, errObs]
-  by_cases c2 : (i.garbage || i.envFmt != i.format) = true
-  · have : (!i.garbage && i.envFmt == i.format) = false := by
-      cases hg : i.garbage <;> simp_all
+  by_cases c2 : (i.garbage || i.envFmt != i.format || !wrapParses i) = true
+  · have : (!i.garbage && i.envFmt == i.format && wrapParses i) = false := by
+      cases hg : i.garbage <;> cases hw : wrapParses i <;> simp_all
     have e2 : pe2.isNone = false := by cases pe2 <;> simp_all
     simp [c0, c1, c2, pure, envChecks, errObs, this, e2]
   have c2' : i.garbage = false ∧ i.envFmt = i.format := by
-    cases hg : i.garbage <;> simp_all
+    cases hg : i.garbage <;> cases hw : wrapParses i <;> simp_all
+  have c2w : wrapParses i = true := by
+    cases hg : i.garbage <;> cases hw : wrapParses i <;> simp_all
   by_cases c3 : verifyOk i = true
-  case neg => simp [c0, c1, c2, c2'.1, c2'.2, c3, pure, envChecks, errObs]
+  case neg => simp [c0, c1, c2, c2'.1, c2'.2, c2w, c3, pure, envChecks, errObs]
   by_cases c4 : i.ctypeOk = true
   case neg =>
     have e4 : vp.isNone = false := by cases vp <;> simp_all
-    simp [c0, c1, c2, c2'.1, c2'.2, c3, c4, pure, envChecks, errObs, e4]
+    simp [c0, c1, c2, c2'.1, c2'.2, c2w, c3, c4, pure, envChecks, errObs, e4]
   by_cases c5 : singleDocument i = true
-  case neg => simp [c0, c1, c2, c2'.1, c2'.2, c3, c4, c5, pure, envChecks, errObs]
+  case neg => simp [c0, c1, c2, c2'.1, c2'.2, c2w, c3, c4, c5, pure, envChecks, errObs]
   cases hg : goDecodePayload i.payload with
-  | none => simp [c0, c1, c2, c2'.1, c2'.2, c3, c4, c5, hg, pure, envChecks, errObs, sees]
+  | none => simp [c0, c1, c2, c2'.1, c2'.2, c2w, c3, c4, c5, hg, pure, envChecks, errObs, sees]
   | some d =>
     have hd := h5d d hg
     rw [hd]
     by_cases c6 : i.payload.dupDeep = true
-    · simp [c0, c1, c2, c2'.1, c2'.2, c3, c4, c5, hg, c6, pure, envChecks, errObs]
+    · simp [c0, c1, c2, c2'.1, c2'.2, c2w, c3, c4, c5, hg, c6, pure, envChecks, errObs]
     have c6' : i.payload.dupDeep = false := by simpa using c6
     have hE : envChecks i = (descValid i.req d && (topKeysExact i.payload && descKeysKnown i.payload)) := by
-      simp [envChecks, c1, c2'.1, c2'.2, c3, c4, c5, c6', hg, sees, Bool.and_assoc]
+      simp [envChecks, c1, c2'.1, c2'.2, c2w, c3, c4, c5, c6', hg, sees, Bool.and_assoc]
     cases hA : descValid i.req d <;> cases hB : (topKeysExact i.payload && descKeysKnown i.payload) <;>
       simp [hE, hA, hB, c0, c1, c2, c3, c4, c5, hg, c6', pure, sigObs, errObs]
 
